@@ -1000,6 +1000,15 @@ class GroupBy:
 
         if transform:
             self._unify_group_key_chunks()
+            if func_is_mean:
+                # result_columns hold the sums at this point
+                with np.errstate(invalid="ignore", divide="ignore"):
+                    result_columns = [
+                        mean_from_sum_count(
+                            pd.Series(result), pd.Series(count).reindex(range(len(result)))
+                        ).to_numpy()
+                        for result, count in zip(result_columns, counts)
+                    ]
             result_columns = [result[self.group_ikey] for result in result_columns]
             if common_index is not None:
                 result_index = common_index
